@@ -611,6 +611,88 @@ example : inferIf [none] [tensor .i64 [.const 2]] = .err .typeErr := by decide
 example : inferIf [] [] = .err .inference := by decide
 example : conformsAll (ifRun false [⟨.f32, [2, 4]⟩] [⟨.f32, [3, 4]⟩]) [tensor .f32 [.anon, .named "N"]] = true := by decide
 
+/-- **The reported `If` type is characterised exactly** (the "iff" of `if_join_upper` / `if_join_least`): a type
+    `u` is refined by the reported type IFF it is refined by the types of BOTH branches — i.e. the sound
+    claims about the `If`'s result are precisely the claims both branches guarantee. -/
+theorem if_join_iff (t e j u : Ty) (h : joinTy t e = some j) :
+    refines j u = true ↔ (refines t u = true ∧ refines e u = true) := by
+  constructor
+  · intro hj
+    have hu := joinTy_upper t e j h
+    exact ⟨refines_trans t j u hu.1 hj, refines_trans e j u hu.2 hj⟩
+  · intro ⟨ht, he⟩
+    obtain ⟨j', hj', hr⟩ := joinTy_least t e u ht he
+    rw [h] at hj'
+    cases hj'
+    exact hr
+
+example : refines ⟨.f32, some [.anon, .const 3]⟩ ⟨.f32, some [.named "K", .const 3]⟩ = true ∧
+    joinTy ⟨.f32, some [.const 2, .const 3]⟩ ⟨.f32, some [.const 4, .const 3]⟩ = some ⟨.f32, some [.anon, .const 3]⟩ := by decide
+
+/-! ### Nested `If` (mini-round): `If`s inside the branches of `If`s, to any depth -/
+
+/-- A tree of nested `If`s: a leaf is a branch body that returns Vars of types `tys` and — when it runs —
+    the values `vals`; `ite c t e` is an `If` whose condition evaluates to `c` at run time and whose branches
+    are again trees. -/
+inductive IfTree
+  | leaf (tys : List ITy) (vals : List RtVal)
+  | ite (c : Bool) (t e : IfTree)
+
+/-- The types reported for the tree's results: `inferIf` applied bottom-up (`none` = some construction raises). -/
+def IfTree.ty : IfTree → Option (List ITy)
+  | .leaf tys _ => some tys
+  | .ite _ t e =>
+    match t.ty, e.ty with
+    | some T, some E => (match inferIf T E with | .ok o => some o | .err _ => none)
+    | _, _ => none
+
+/-- The run: every `If` yields the results of the branch its condition selects. -/
+def IfTree.run : IfTree → List RtVal
+  | .leaf _ vs => vs
+  | .ite c t e => ifRun c t.run e.run
+
+/-- Only the leaf that actually RUNS has to respect its declared types. -/
+def IfTree.okOnPath : IfTree → Prop
+  | .leaf tys vs => conformsAll vs tys = true
+  | .ite c t e => if c = true then t.okOnPath else e.okOnPath
+
+/-- **Nested `If`s are sound at every nesting depth** (induction over the tree): whatever the conditions
+    evaluate to, if the one leaf body that runs returns values conforming to its own result types, the
+    values of the outermost `If` conform to the types reported for it. -/
+theorem nested_if_sound : ∀ (tr : IfTree) (outs : List ITy), tr.ty = some outs → tr.okOnPath →
+    conformsAll tr.run outs = true
+  | .leaf tys vs, outs, h, hok => by
+    simp only [IfTree.ty, Option.some.injEq] at h
+    subst h; exact hok
+  | .ite c t e, outs, h, hok => by
+    simp only [IfTree.ty] at h
+    cases hT : t.ty with
+    | none => simp [hT] at h
+    | some T =>
+      cases hE : e.ty with
+      | none => simp [hT, hE] at h
+      | some E =>
+        simp only [hT, hE] at h
+        cases hI : inferIf T E with
+        | err _ => simp [hI] at h
+        | ok o =>
+          simp only [hI, Option.some.injEq] at h
+          subst h
+          simp only [IfTree.run]
+          apply if_sound T E o c t.run e.run hI
+          · intro hc
+            subst hc
+            exact nested_if_sound t T hT (by simpa [IfTree.okOnPath] using hok)
+          · intro hc
+            subst hc
+            exact nested_if_sound e E hE (by simpa [IfTree.okOnPath] using hok)
+
+/-- depth 2, the inner else-branch runs (shape (5,)); the leaf that does not run holds a non-conforming value -/
+example : (IfTree.ite true (.ite false (.leaf [tensor .f32 [.const 2]] [⟨.i64, [9, 9]⟩]) (.leaf [tensor .f32 [.named "N"]] [⟨.f32, [5]⟩]))
+    (.leaf [tensor .f32 [.const 2, .const 3]] [])).ty = some [some ⟨.f32, none⟩] := by decide
+example : (IfTree.ite true (.ite false (.leaf [tensor .f32 [.const 2]] [⟨.i64, [9, 9]⟩]) (.leaf [tensor .f32 [.named "N"]] [⟨.f32, [5]⟩]))
+    (.leaf [tensor .f32 [.const 2, .const 3]] [])).run = [⟨.f32, [5]⟩] := by decide
+
 /-! ## Loop -/
 
 /-- Soundness of a Loop inference routine `inf` for the carried outputs, for declared argument /
